@@ -23,8 +23,8 @@ LEVEL_NOTE = ('Trusted: Lean kernel; the interpreter model; the harness referenc
               ' Known finding D-07b: a dynamic value for an '
               'unquoted or valueless static attribute re-uses its empty quote.')
 RULE = ('elements with 0..4 static attributes (mixed case) x tal:attributes lists (named and dict entries, overlapping names in different '
-        'case, ;; escapes) x values {None, default, "", 0, False, True, str, hostile str} x boolean configurations {HTML default, explicit '
-        'set, XML}. Non-trivial iff some attribute name is targeted by two sources or holds None/default/boolean.')
+        'case, ;; escapes) x values {None, default, "", 0, False, True, str, hostile str} x boolean configurations {HTML default, explicit set, explicitly empty, XML, XML with '
+        'explicit set}. Non-trivial iff some attribute name is targeted by two sources or holds None/default/boolean.')
 TRUSTED = []
 ASSUMPTIONS = []
 
@@ -69,7 +69,7 @@ def make_case(rng):
             continue
         seen.add(nm)
         entries.append((nm, rng.choice(list(VALUES))))
-    mode = rng.choice(['html', 'html', 'explicit', 'xml'])
+    mode = rng.choice(['html', 'html', 'explicit', 'xml', 'empty', 'xml-explicit'])
     if mode == 'html':
         booleans = set(HTML_BOOL)
         cfg = {}
@@ -78,6 +78,15 @@ def make_case(rng):
         booleans = {'class', 'checked'}
         cfg = {'boolean_attributes': sorted(booleans)}
         prefix = ''
+    elif mode == 'empty':
+        # explicitly configured: no boolean attributes at all (an empty collection is not "unset")
+        booleans = set()
+        cfg = {'boolean_attributes': []}
+        prefix = ''
+    elif mode == 'xml-explicit':
+        booleans = {'class', 'checked'}
+        cfg = {'boolean_attributes': sorted(booleans)}
+        prefix = '<?xml version="1.0"?>'
     else:
         booleans = set()
         cfg = {}
@@ -138,8 +147,55 @@ def make_case(rng):
             continue
         out.append((s['name'], esc(val)))
     exp = prefix + '<a' + ''.join(' %s="%s"' % kv for kv in out) + '>x</a>'
+    # ---- what the property prescribes when a dictionary and a static / named attribute supply the same name: sources in
+    # statement order, the later one wins; a static attribute keeps its position, a new name stands where it first appears
+    islots = [{'name': n, 'static': v, 'src': None} for n, v in static]
+    iidx = {n.lower(): i for i, (n, v) in enumerate(static)}
+    for n, v in entries:
+        if n == 'DICT':
+            for k, val in dvals.items():
+                i = iidx.get(k.lower())
+                if i is None:
+                    islots.append({'name': k, 'static': None, 'src': ('dict', val)})
+                    iidx[k.lower()] = len(islots) - 1
+                else:
+                    islots[i] = dict(islots[i], src=('dict', val))
+            continue
+        i = iidx.get(n.lower())
+        if i is None:
+            islots.append({'name': n, 'static': None, 'src': ('named', v)})
+            iidx[n.lower()] = len(islots) - 1
+        else:
+            islots[i] = dict(islots[i], name=n, src=('named', v))
+    iout = []
+    for sl in islots:
+        if sl['src'] is None:
+            iout.append((sl['name'], sl['static']))
+            continue
+        kind, v = sl['src']
+        val = VALUES[v][1] if kind == 'named' else v
+        if sl['name'] in booleans:
+            if val == 'DEFAULT':
+                if sl['static'] is not None:
+                    iout.append((sl['name'], sl['static']))
+            elif val:
+                iout.append((sl['name'], sl['name']))
+            continue
+        if val is None:
+            continue
+        if val == 'DEFAULT':
+            if sl['static'] is not None:
+                iout.append((sl['name'], sl['static']))
+            continue
+        iout.append((sl['name'], esc(val)))
+    ideal = prefix + '<a' + ''.join(' %s="%s"' % kv for kv in iout) + '>x</a>'
+    others = {n.lower() for n, _ in static} | {n.lower() for n, _ in entries if n != 'DICT'}
+    overlap = any(k.lower() in others for k in dvals)
+    # a dictionary key that matches another source only up to case: the property does not say; not generated
+    if any(k.lower() in others and k not in {n for n, _ in static} | {n for n, _ in entries} for k in dvals):
+        return make_case(rng)
     vars_ = [['d', {'dict': [[{'str': k}, spec(v)] for k, v in dvals.items()]}]]
-    return {'src': src, 'vars': vars_, 'objs': [], 'cfg': cfg}, exp, nontrivial
+    return {'src': src, 'vars': vars_, 'objs': [], 'cfg': cfg, 'impl_like': exp, 'overlap': overlap}, ideal, nontrivial
 
 
 def spec(v):
@@ -166,8 +222,13 @@ def oracle(ctx):
         if nontrivial:
             nt.add(case['src'] + str(case['vars']))
         if impl.get('out') != exp:
+            # D-07c: a dictionary that supplies a name also supplied by a static or named attribute wins whatever the statement
+            # order, and the attribute stands at the dictionary's position (classified mechanically: the name sets overlap and the
+            # output is exactly what the reference of the code's merge order gives)
+            d07c = case.get('overlap') and impl.get('out') == case.get('impl_like')
             ctx.violation('start tag does not follow the attribute rules (static verbatim / dynamic escaped / None drops / default keeps / '
-                          'boolean / order / later sources override)', case, expected=exp, actual=impl)
+                          'boolean / order / later sources override)', {k: case[k] for k in ('src', 'vars', 'objs', 'cfg')}, expected=exp, actual=impl,
+                          finding='D-07c' if d07c else None)
     ctx.counters['nontrivial'] = len(nt)
     ctx.sample({'template': cases[0][0]['src'], 'd': cases[0][0]['vars'], 'cfg': cases[0][0]['cfg'], 'expected': cases[0][1]})
     # D-07b
@@ -175,6 +236,14 @@ def oracle(ctx):
     if r.get('out') != '<input checked="checked"/>':
         ctx.violation('dynamic value for a valueless static attribute', {'src': '<input checked tal:attributes="checked v"/>', 'vars': [['v', True]]},
                       expected='<input checked="checked"/>', actual=r, finding='D-07b' if r.get('out') == '<input checkedchecked/>' else None)
+
+
+    # D-07c
+    c7 = {'src': '<a class="s" id="q" tal:attributes="d">x</a>', 'vars': [['d', {'dict': [[{'str': 'class'}, {'str': 'z'}]]}]], 'objs': [], 'cfg': {}}
+    r = pipeline.run_impl(c7)
+    if r.get('out') != '<a class="z" id="q">x</a>':
+        ctx.violation('a static attribute overridden by an attribute dictionary must keep its position', c7, expected='<a class="z" id="q">x</a>',
+                      actual=r, finding='D-07c' if r.get('out') == '<a id="q" class="z">x</a>' else None)
 
 
 def reproduce_finding(ctx, f):
